@@ -55,7 +55,7 @@ class Model:
         self.meaningful = frozenset()
         self.wrapped_aes = b""
         self.wrapped_rsa = b""
-        self.foot = set()        # retiring events the token has been through (close-all / last close): part of the state key, see key()
+        self.foot = set()        # retiring events the token has been through (close-all / last close); informational
 
 
 class C01(CheckBase):
@@ -404,7 +404,7 @@ class C01(CheckBase):
                                                                                        tpl([(C.CKA_TOKEN, bool(token)), (C.CKA_LABEL, b"probe-default")])))
                     dplan.append(("generate-pair-default-privacy", "ec", token))
                 d1 = ctx.sh.depth
-                ctx.sh.snap()
+                ctx.sh.snap(copy=bool(rw))       # token objects are created only through read-write sessions: only then a private copy of the directory is needed
                 try:
                     for r, (name, kind, token) in zip(p.batch(dlines), dplan):
                         ctx.count("default_privacy_creator_probes")
@@ -428,11 +428,104 @@ class C01(CheckBase):
         return bytes.fromhex(r.get("out", ""))[:r.get("len", 0)] if r["rv"] == 0 else bytes(24)
 
     def key(self, ctx, m):
-        # the footprint keeps apart states the model holds equal but the library reached through different bookkeeping paths (close-all vs last close)
-        return (tuple(sorted(m.login.items())), tuple((t, rw) for h, t, rw in m.sess), frozenset(l for l, o in m.objs.items() if o.alive), tuple(sorted(m.foot)))
+        return (tuple(sorted(m.login.items())), tuple((t, rw) for h, t, rw in m.sess), frozenset(l for l, o in m.objs.items() if o.alive))
 
     def died_sig(self, action, d):
         return "C01|%s|%r" % (action[0] if action else None, d.info)
+
+
+class C01Core(CheckBase):
+    """UNMERGED enumeration of every sequence over a core alphabet of session/login calls on token A (and one session on B), with a light oracle: after every call a
+    freshly opened session on A finds the private token object iff the model says the user is logged in.  No state merging, so login state the library keeps in
+    tables, counters or caches that the canonical key of the big search cannot see (left behind by close-all / last close / logout in any order) cannot hide."""
+    ID = "C01"
+
+    def __init__(self):
+        self.kw = {}
+
+    def world(self, ctx):
+        return W.two_tokens(ctx)
+
+    def setup(self, ctx, world):
+        p = ctx.p
+        W.ok(p.Initialize(), "init")
+        s = W.ok(p.OpenSession(world["slots"]["A"]), "open")["h"]
+        W.ok(p.Login(s, C.CKU_USER, W.USER_A), "login")
+        W.ok(p.CreateObject(s, F.template("aes128", token=True, private=True, label=b"core-private")), "create")
+        W.ok(p.CreateObject(s, F.template("data", token=True, private=False, label=b"core-public")), "create")
+        W.ok(p.CloseSession(s), "close")
+        m = Model()
+        m.login = {"A": PUBLIC, "B": PUBLIC}
+        return m
+
+    def actions(self, m):
+        acts = []
+        na = sum(1 for s in m.sess if s[1] == "A")
+        if na < 2:
+            acts.append(("open", "A", 1))
+            if m.login["A"] != SO:
+                acts.append(("open", "A", 0))
+        if not any(s[1] == "B" for s in m.sess):
+            acts.append(("open", "B", 1))
+        n = len(m.sess)
+        for i in sorted({0, n - 1} if n else ()):
+            acts.append(("close", i))
+        acts.append(("closeall", "A"))
+        acts.append(("closeall", "B"))
+        ia = [i for i, s in enumerate(m.sess) if s[1] == "A"]
+        if ia:
+            acts.append(("login", ia[-1], C.CKU_USER))
+            acts.append(("logout", ia[-1]))
+        return acts
+
+    def step(self, ctx, m, a):
+        p, slots = ctx.p, ctx.world["slots"]
+        k = a[0]
+        if k == "open":
+            r = p.OpenSession(slots[a[1]], W.RW if a[2] else W.RO)
+            if r["rv"] == 0:
+                m.sess.append([r["h"], a[1], a[2]])
+        elif k == "close":
+            h, t, rw = m.sess[a[1]]
+            if p.CloseSession(h)["rv"] == 0:
+                del m.sess[a[1]]
+                if not any(s[1] == t for s in m.sess):
+                    m.login[t] = PUBLIC
+        elif k == "closeall":
+            if p.CloseAllSessions(slots[a[1]])["rv"] == 0:
+                m.sess = [s for s in m.sess if s[1] != a[1]]
+                m.login[a[1]] = PUBLIC
+        elif k == "login":
+            h, t, rw = m.sess[a[1]]
+            if p.Login(h, a[2], W.USER_A)["rv"] == 0:
+                m.login[t] = USER
+        elif k == "logout":
+            h, t, rw = m.sess[a[1]]
+            if p.Logout(h)["rv"] == 0:
+                m.login[t] = PUBLIC
+        # oracle: what does a session opened NOW on A reach?
+        d0 = ctx.sh.depth
+        ctx.sh.snap(copy=False)
+        try:
+            r = p.OpenSession(slots["A"], W.RW)
+            if r["rv"] == 0:
+                hs = p.FindAll(r["h"], [(C.CKA_LABEL, b"core-private")]).get("hs", [])
+                ctx.count("core_fresh_session_searches")
+                if hs and m.login["A"] != USER:
+                    raise Violation("C01|core-sequences|%s|fresh-session-finds-private-object-although-nobody-is-logged-in" % k, {"action": a, "model_login": m.login["A"]})
+                if hs:
+                    ctx.count("core_private_found_while_logged_in")
+                if len(p.FindAll(r["h"], [(C.CKA_LABEL, b"core-public")]).get("hs", [])) != 1:
+                    raise Violation("C01|core-sequences|%s|public-object-not-found" % k, {"action": a})
+        finally:
+            ctx.sh.unwind(d0)
+        return m
+
+    def key(self, ctx, m):
+        return (tuple(sorted(m.login.items())), tuple((t, rw) for h, t, rw in m.sess))
+
+    def died_sig(self, action, d):
+        return "C01|core|%s|%r" % (action[0] if action else None, d.info)
 
 
 def main(tier):
@@ -464,6 +557,22 @@ def main(tier):
             exhaustive = exhaustive and fix and dfs_ok
         finally:
             ex.close()
+    # unmerged enumeration over the core alphabet (light oracle: what a freshly opened session finds)
+    core_depth = 5 if quick else 6
+    exc = Explorer(C01Core(), variant=variant, deadline=deadline + 300)
+    try:
+        core_ok = exc.dfs(core_depth)
+        confirm_violations(exc, rep)
+        st = exc.stats
+        runs.append({"config": "core alphabet (open rw/ro on A, open on B, close oldest/newest, close-all A/B, user login, logout), no merging", "variant": variant,
+                     "unmerged_depth": core_depth, "unmerged_paths": st["dfs_paths"], "unmerged_transitions": st["dfs_transitions"], "complete": bool(core_ok), "counters": st["counters"]})
+        tot["transitions"] += st["dfs_transitions"]
+        tot["traces"] += st["dfs_paths"]
+        exhaustive = exhaustive and bool(core_ok)
+        if core_ok and not st["counters"].get("core_private_found_while_logged_in"):
+            rep.harness_errors.append("vacuous core enumeration: %r" % st["counters"])
+    finally:
+        exc.close()
     if not counters.get("forbidden_probes_meaningful") or not counters.get("found_private_permitted") or not counters.get("creator_probes"):
         rep.harness_errors.append("vacuous: %r" % counters)
     rep.coverage = {"states": tot["states"], "transitions": tot["transitions"], "traces_validated_against_impl": tot["traces"],
